@@ -240,6 +240,16 @@ let handle f =
         (* the typed path: what cell A1 holds after the text is typed *)
         let c = { c_sheet = Z0; c_row = z_of_int 1; c_col = z_of_int 1 } in
         show_cell (type_number ops c (text_of_wire w) (store_of [])) c
+    | ["api"; b] ->
+        (* Model::update_cell_with_number on A1 of an empty workbook *)
+        let c = { c_sheet = Z0; c_row = z_of_int 1; c_col = z_of_int 1 } in
+        (match api_set_number ops c (float_of_bits b) (store_of []) with Some st -> show_cell st c | None -> "err")
+    | ["imp"; k; w] ->
+        (* the xlsx importer's <v> conversion at one of its sites; "-" = no text *)
+        let c = { c_sheet = Z0; c_row = z_of_int 1; c_col = z_of_int 1 } in
+        let t = if w = "-" then None else Some (text_of_wire w) in
+        let site = (match k with "num" -> ImpNumberCell | "sp" -> ImpSpillCell (z_of_int 1, z_of_int 1) | _ -> ImpFormulaValue (ENum 0.0)) in
+        show_cell (import_cell ops c site t (store_of [])) c
     | "fin" :: rest ->
         toks := rest;
         let cells = p_list p_cref in
